@@ -13,8 +13,17 @@
       table,matrix}.rs, machines/math/src/op_assign): which statement shares which cells, which forms a
       kernel accepts (one level of MutableReference is looked through, never two), what is written;
    3. the judge: the observed session must satisfy the property step by step (-> ok); if it does not, it is a
-      known finding only when the heap model predicts the observation exactly, step by step, and every failing
-      step falls in a listed class.  *)
+      known finding only when the heap model predicts the observation exactly, step by step up to the last
+      violating step, and every failing step falls in a listed class.
+
+   Value kinds.  f64 scalars, matrices, sets and tables are held structurally (exact dyadics).  A scalar or
+   matrix of any other kind (u8..u128, i8..i128, f32, r64, c64, bool, string) is [DK kind shape payloads], the
+   payloads being what harness/src/canon.rs prints (integers, f32 / c64 bit patterns, (numerator denominator),
+   0/1, quoted strings); tables and sets with an element of another kind are [DOpq canonical-form].  The
+   property only needs equality of such values.  The heap model also knows which kernels exist for which kind
+   (none for i128; TupleAssignScalar only for f64/i64/bool/string; no arithmetic on bool and string) and computes
+   the op-assignments on integers (with the range checks of the dev profile), f32 and c64 (correctly rounded)
+   and r64, including what a kernel leaves behind when it panics midway. *)
 From Coq Require Import List ZArith String Bool Arith.
 From MechV Require Import Base.Sexp Base.Obs.
 Import ListNotations.
